@@ -100,6 +100,15 @@ Theorem C13_source_shape :
 Proof. exact source_shape. Qed.
 Print Assumptions C13_source_shape.
 
+(* Non-vacuity of the hypotheses: functions satisfying hash_ok, quote_ok and the injectivity of
+   dec exist (a two-letters-per-byte encoding, a unary-length-prefixed quote, unary numbers),
+   and with them two different lists of matchers whose naive join would coincide get different keys. *)
+Example C13_hypotheses_satisfiable :
+  exists H quote dec, hash_ok H /\ quote_ok quote /\ (forall a b : N, dec a = dec b -> a = b) /\
+    key_of H quote dec true (IExpanded [48] [mkM MEq [97] [98; 59; 99]] []) <>
+    key_of H quote dec true (IExpanded [48] [mkM MEq [97] [98]; mkM MEq [99] []] []).
+Proof. exact hypotheses_satisfiable. Qed.
+
 (* Non-vacuity: with a concrete quote on the strings involved, two expanded-postings
    texts that a naive join would confuse are different, and valid items exist. *)
 Example C13_nonvacuous :
